@@ -16,5 +16,5 @@ def replay(obj):
     if obj.get("unit") == "graph":
         from vt.props import c05_graph
         return c05_graph.replay(obj)
-    import json
-    print(json.dumps(obj, indent=1)[:4000])
+    from vt import envreplay
+    return envreplay.replay(obj, "C05")
